@@ -599,6 +599,9 @@ def run(ctx):
         rule_p7(ctx, F)
         rule_p8(ctx, F)
         rule_p9(ctx, F)
+        # a rejected range list leaves the parser's ranges untouched (history independence; shared with C13.G1)
+        import C13
+        C13.rule_g1(ctx, F)
     return ctx.finish(
         "Field-coverage and ordering rules over parser.c/lexer.c: each of TSParser's fields is classified and every RESET field is re-initialised on all paths "
         "of ts_parser_reset; completion and language change pass ts_parser_reset; a resumed parse stores to no parser state before the loop; a new input discards "
